@@ -120,15 +120,22 @@ def run(workdir, module, cfg, workers=16, simulate=None, depth=None, seed=None, 
     # next to this one) has been seen to be four times slower
     timeout = timeout * int(os.environ.get("QSVERIF_TIMEOUT_SCALE", "4"))
     t0 = time.time()
-    try:
-        p = subprocess.run(cmd, cwd=workdir, env=e, stdout=subprocess.PIPE, stderr=subprocess.STDOUT,
-                           timeout=timeout)
-    except subprocess.TimeoutExpired:
-        raise TLCError("TLC timed out after %ss: %s" % (timeout, " ".join(cmd)))
-    finally:
-        shutil.rmtree(meta, ignore_errors=True)
-    out = p.stdout.decode("utf-8", "replace")
-    r = parse_output(out)
+    for attempt in (1, 2):
+        try:
+            p = subprocess.run(cmd, cwd=workdir, env=e, stdout=subprocess.PIPE, stderr=subprocess.STDOUT,
+                               timeout=timeout)
+        except subprocess.TimeoutExpired:
+            raise TLCError("TLC timed out after %ss: %s" % (timeout, " ".join(cmd)))
+        finally:
+            shutil.rmtree(meta, ignore_errors=True)
+        out = p.stdout.decode("utf-8", "replace")
+        r = parse_output(out)
+        inconclusive = r.violated is None and not r.deadlock and not r.finished and "Overflow when computing" not in out
+        if not inconclusive or attempt == 2:
+            break
+        # neither a verdict nor a recognised evaluation error (seen once on a heavily loaded machine: the JVM gave up
+        # within seconds): run the very same command once more before calling it a machinery failure
+        time.sleep(5)
     r.wall = time.time() - t0
     r.returncode = p.returncode
     if r.violated is None and not r.deadlock and not r.finished and "Overflow when computing" in out:
